@@ -28,7 +28,8 @@ pub fn script(seed: u64, idx: u64) -> Trace {
             t.ops.push(OpRec { id, op });
             id += 1;
         };
-        push(&mut t, Op::WriteStream { name: "Tail.bin".into(), dseed: 777, steps: vec![WStep::Write(5000), WStep::Flush] });
+        // (one write call that crosses the container's 8 KiB stream buffer)
+        push(&mut t, Op::WriteStream { name: "Tail.bin".into(), dseed: 777, steps: vec![WStep::Write(12000), WStep::Flush] });
         push(&mut t, Op::Restart { mode: CloseMode::IntoInner, edits: Vec::new() });
         if idx % 8 == 3 {
             push(&mut t, Op::RemoveStream { name: "Tail.bin".into() });
@@ -37,6 +38,18 @@ pub fn script(seed: u64, idx: u64) -> Trace {
         }
         push(&mut t, Op::Flush);
         push(&mut t, Op::Restart { mode: CloseMode::FlushCrash, edits: Vec::new() });
+        if idx % 8 == 7 {
+            // a save window whose only pool change is a new string in a freed slot
+            let cols = vec![ColSpec::new("K", CType::I16).key(), ColSpec::new("S", CType::Str(0)).nullable()];
+            push(&mut t, Op::CreateTable { name: "Tq".into(), cols });
+            push(&mut t, Op::Insert { table: "Tq".into(), rows: vec![vec![Val::Int(1), Val::Str("Q9001Q".into())], vec![Val::Int(2), Val::Str("Q9002Q".into())]] });
+            push(&mut t, Op::Flush);
+            push(&mut t, Op::Delete { table: "Tq".into(), cond: Some(Cond::Cmp("K".into(), CmpOp::Eq, Val::Int(1))) });
+            push(&mut t, Op::Flush);
+            push(&mut t, Op::Insert { table: "Tq".into(), rows: vec![vec![Val::Int(3), Val::Str("Q9003Q".into())]] });
+            push(&mut t, Op::Flush);
+            push(&mut t, Op::Restart { mode: CloseMode::FlushCrash, edits: Vec::new() });
+        }
     }
     t
 }
